@@ -13,7 +13,7 @@ DATA = {
     "b": [[[0.0, 2.0], [1.0, 1.5]], [[-0.25, 0.5], [0.75, 1.0]]],
     "c": [[[0.1, 0.4], [0.3, 1.0], [0.2, 0.9]]],
 }
-SIGMA_STD = 0.0025  # narrow probe kernel: (smallest pixel)/40
+SIGMA_STD = 0.0003  # narrow probe kernel: (smallest pixel)/40
 RULE = (
     "BFS over configuration histories of REAL PersistenceImager objects: initial states = all "
     "constructor products birth_range x pers_range x pixel_size (7x7x6; ranges include extents just above / below a multiple of the pixel) + defaults; operations = "
@@ -41,6 +41,11 @@ def inits():
     out = [{"birth_range": list(b), "pers_range": list(p), "pixel_size": s}
            for b, p, s in itertools.product(RANGES, RANGES, PIXELS)]
     out.append({})
+    # asymmetric high-resolution states (tens of pixels along one axis only)
+    out += [{"birth_range": [0, 0.3], "pers_range": [0, 1], "pixel_size": 0.025},
+            {"birth_range": [-0.5, 0.7], "pers_range": [0.1, 0.8], "pixel_size": 0.0125},
+            {"birth_range": [0, 1], "pers_range": [0, 0.3], "pixel_size": 1.0 / 64.0},
+            {"birth_range": [0.0, 0.05], "pers_range": [0.0, 2.5], "pixel_size": 0.05}]
     return out
 
 
